@@ -119,6 +119,25 @@ func configsBase(tier string) []xplore.Config {
 			out = append(out, xplore.Config{Name: fmt.Sprintf("c: gnmi client decode type=%v responses=%v", qt, rs), Bound: 0, Data: cfgData{part: "c", resps: strings.Join(rs, ""), qtype: qt}})
 		}
 	}
+	// (e) the real BaseClient / CacheClient used DIRECTLY (no reconnecting wrapper,
+	// whose Close waits for Subscribe and so hides what the inner client does
+	// after Close returned): one to three Subscribe calls in a row on the same
+	// client object, a Close from another goroutine at every possible moment
+	eScripts := [][]string{{"bbbp"}, {"nbp"}, {"bf", "bbbp"}, {"e", "bbbp"}, {"nf", "nbbp"}}
+	if tier == "thorough" {
+		eScripts = append(eScripts, []string{"bf", "e", "bbbbp"}, []string{"bbbbbp"}, []string{"f", "f", "bbp"})
+	}
+	for _, sc := range eScripts {
+		events := 0 // transport events: one per Impl.Subscribe, one per Recv
+		for _, x := range sc {
+			events += 1 + len(x)
+		}
+		for _, cache := range []bool{false, true} {
+			for at := 0; at < events; at++ {
+				out = append(out, xplore.Config{Name: fmt.Sprintf("e: real client (cache=%v) used directly, Subscribe x%d over scripted impl conns=%v, Close from another goroutine started at transport event %d", cache, len(sc), sc, at), Bound: bound - 2, Data: cfgData{part: "e", attempts: sc, cache: cache, closeAt: at}})
+			}
+		}
+	}
 	// (d) the fake client implementation (client/fake) behind the real BaseClient
 	for _, us := range seqsOf([]string{"u1", "u2", "del", "err"}, 3) {
 		out = append(out, xplore.Config{Name: fmt.Sprintf("d: fake client implementation updates=%v", us), Bound: 0, Data: cfgData{part: "d", attempts: us}})
@@ -227,6 +246,8 @@ type scriptImpl struct {
 	closeC    chan struct{}
 	closed    bool
 	connected bool
+	closedBy  int    // thread that closed it first (part e attributes a Close to the impl it reached)
+	hook      func() // part e: called at every transport event (Subscribe, each Recv)
 }
 
 // multiErr is an error that lists several causes (the shape errlist produces).
@@ -242,9 +263,15 @@ func (s *scriptImpl) Subscribe(ctx context.Context, q client.Query) error {
 		return multiErr{errors.New("address 1 unreachable"), errors.New("address 2 unreachable")}
 	}
 	s.tr.add("conn#%d", s.id)
+	if s.hook != nil {
+		s.hook()
+	}
 	return nil
 }
 func (s *scriptImpl) Recv() error {
+	if s.hook != nil {
+		s.hook()
+	}
 	k := byte('p')
 	if s.pos < len(s.script) {
 		k = s.script[s.pos]
@@ -295,6 +322,7 @@ func (s *scriptImpl) sentConnected() bool {
 func (s *scriptImpl) Close() error {
 	if !s.closed {
 		s.closed = true
+		s.closedBy = vrt.ThreadID()
 		vrt.Close(s.closeC)
 	}
 	return nil
@@ -350,6 +378,9 @@ func (harness) Run(cfg xplore.Config, ch vrt.Chooser, trace bool) (xplore.Outcom
 	}
 	if d.part == "d" {
 		return runD(d, ch, trace)
+	}
+	if d.part == "e" {
+		return runE(cfg, d, ch, trace)
 	}
 	res := vrt.Run(ch, vrt.Options{Reverse: cfg.Reverse, Trace: trace, EarlyTimers: true}, func() {
 		tr := &tracer{}
@@ -726,6 +757,141 @@ func runD(d cfgData, ch vrt.Chooser, trace bool) (xplore.Outcome, *vrt.Result) {
 	}
 	if res.Aborted != "" {
 		out.Violations = append(out.Violations, xplore.Violation{Class: hutil.AbortClass(res.Aborted, res.Panic), Msg: res.Aborted})
+	}
+	return out, res
+}
+
+// runE: part (e). The clause decided here is the last one of the statement -
+// "after Close returns at most the notifications of one further received
+// message are delivered" - on the client object applications actually hold.
+// A Close is attributed to the transport it reached (the Impl whose Close it
+// invoked): a Close that found no transport (ErrClientInit) or reached the
+// previous, already finished one does not concern the current stream, and a
+// Subscribe issued afterwards is a new subscription.
+func runE(cfg xplore.Config, d cfgData, ch vrt.Chooser, trace bool) (xplore.Outcome, *vrt.Result) {
+	var out xplore.Outcome
+	viol := func(class, format string, a ...interface{}) {
+		out.Violations = append(out.Violations, xplore.Violation{Class: class, Msg: fmt.Sprintf(format, a...)})
+	}
+	res := vrt.Run(ch, vrt.Options{Reverse: cfg.Reverse, Trace: trace}, func() {
+		tr := &tracer{}
+		var impls []*scriptImpl
+		var c client.Client
+		closeReturned, closeInvoked := false, false
+		closerTID := -2
+		events := 0
+		// the closer is started AT a transport event (the explorer then moves it
+		// around from there): started at the very beginning it would almost always
+		// run before any transport exists
+		hook := func() {
+			if events++; events-1 != d.closeAt {
+				return
+			}
+			vrt.GoNamed("closer", func() {
+				closerTID = vrt.ThreadID()
+				closeInvoked = true
+				tr.add("CLOSE")
+				err := c.Close()
+				closeReturned = true
+				tr.add("CLOSED(%v)", err)
+			})
+		}
+		client.ResetRegisteredImpls()
+		client.RegisterTest("scripted", func(ctx context.Context, dst client.Destination) (client.Impl, error) {
+			i := len(impls)
+			sc := "p"
+			if i < len(d.attempts) {
+				sc = d.attempts[i]
+			}
+			si := &scriptImpl{tr: tr, id: i, script: sc, closeC: make(chan struct{}), closedBy: -1, hook: hook}
+			impls = append(impls, si)
+			return si, nil
+		})
+		if d.cache {
+			c = client.New()
+		} else {
+			c = &client.BaseClient{}
+		}
+		handler := func(n client.Notification) error {
+			switch v := n.(type) {
+			case client.Connected:
+				tr.add("CONNECTED")
+			case client.Update:
+				tr.add("N(%v)", v.Val)
+			default:
+				tr.add("N?")
+			}
+			return nil
+		}
+		q := client.Query{Addrs: []string{"addr"}, Target: "t", Type: client.Stream, Queries: []client.Path{{"*"}}, NotificationHandler: handler}
+		subDone := false
+		vrt.GoNamed("subscribe", func() {
+			for i, sc := range d.attempts {
+				closedBefore := closeInvoked
+				err := c.Subscribe(vcontext.Background(), q, "scripted")
+				tr.add("SUB-RETURNED#%d(%v)", i, err)
+				if !closedBefore && !closeInvoked {
+					// nobody interfered: the stream's own end decides the result
+					if strings.HasSuffix(sc, "f") && err != nil {
+						viol("subscribe-status", "stream %d ended with EOF but Subscribe returned %v; trace: %s", i, err, tr)
+					}
+					if strings.HasSuffix(sc, "e") && err == nil {
+						viol("subscribe-status", "stream %d broke but Subscribe returned nil; trace: %s", i, tr)
+					}
+				}
+			}
+			subDone = true
+		})
+		vrt.Idle()
+		// wind-down: a Close that came before a transport existed (or reached a
+		// finished one) leaves the later streams parked; close from here
+		for k := 0; k <= len(d.attempts) && !subDone; k++ {
+			tr.add("WINDDOWN-CLOSE")
+			c.Close()
+			vrt.Idle()
+		}
+		out.Obs = tr.String()
+		if !subDone || !closeReturned || !vrt.AllDone() {
+			viol("not-terminated", "Subscribe sequence finished=%v Close returned=%v although every stream's transport was closed; parked: %v; trace: %s", subDone, closeReturned, vrt.ParkedInfo(), tr)
+			return
+		}
+		// which transport did the closer's Close reach?
+		reached := -1
+		for _, si := range impls {
+			if si.closedBy == closerTID {
+				reached = si.id
+			}
+		}
+		out.Nontrivial = reached >= 0
+		closedSeen, after, cur, connected := false, 0, -1, false
+		for i, e := range tr.ev {
+			switch {
+			case strings.HasPrefix(e, "CLOSED("):
+				closedSeen = true
+			case strings.HasPrefix(e, "conn#"):
+				fmt.Sscanf(e, "conn#%d", &cur)
+				connected = false
+			case e == "CONNECTED":
+				connected = true
+			case strings.HasPrefix(e, "recv#"):
+				id := -1
+				fmt.Sscanf(e, "recv#%d", &id)
+				if closedSeen && id == reached {
+					after++
+				}
+			case strings.HasPrefix(e, "N("):
+				if !connected {
+					viol("connected-not-first", "event %d: a notification of stream %d was delivered before Connected; trace: %s", i, cur, tr)
+					return
+				}
+			}
+		}
+		if after > 1 {
+			viol("notifications-after-close", "Close reached the transport of stream %d and returned, yet %d further messages of that stream were received and delivered afterwards (at most one is allowed); trace: %s", reached, after, tr)
+		}
+	})
+	if res.Aborted != "" {
+		viol(hutil.AbortClass(res.Aborted, res.Panic), "%s %s", res.Aborted, strings.Join(res.Parked, "; "))
 	}
 	return out, res
 }
